@@ -21,6 +21,10 @@ SRCS = ["time", "perf_counter", "monotonic"]
 BASES = {"time": F(1_000_000), "perf_counter": F(5_000), "monotonic": F(70_000)}
 
 
+class RunawaySleep(BaseException):
+    pass
+
+
 class FakeStdTime:
     """Stand-in for the stdlib `time` module used by pamiq_core.time."""
 
@@ -40,7 +44,14 @@ class FakeStdTime:
     def time(self) -> float: return self._read("time")
     def perf_counter(self) -> float: return self._read("perf_counter")
     def monotonic(self) -> float: return self._read("monotonic")
-    def sleep(self, secs: float) -> None: self.sleeps.append(secs)
+    def sleep(self, secs: float) -> None:
+        # a real sleep lets real time pass: implementations that re-check the clock after sleeping
+        # must see it advanced (and must not spin: more than 100 sleeps in one call is a runaway)
+        self.sleeps.append(secs)
+        if len(self.sleeps) > 100:
+            raise RunawaySleep(f"{len(self.sleeps)} stdlib sleeps inside one call")
+        if secs > 0:
+            self.now += F(secs)
 
     def begin_op(self, script: list[F]) -> tuple[F, F, F]:
         self.reads = {s: [] for s in SRCS}
@@ -171,11 +182,14 @@ def run_case(case: dict, driver, variant: str = "1"):
                                      "scaled_anchor_monotonic": m})
             elif kind == "sleep":
                 ctl.sleep(float(F(arg)))
-                out = show_frac(F(fake.sleeps[0])) if fake.sleeps else "none"
+                out = "+".join(show_frac(F(x)) for x in fake.sleeps) if fake.sleeps else "none"
             else:
                 raise ValueError(kind)
         except AssertionError:
             out = "err AssertionError"
+        except RunawaySleep as e:
+            out = "err RunawaySleep"
+            violations.append(Violation("clock:sleep:never-returns", f"sleep({arg}): {e}", case))
         suffix = reads_suffix(now, fake)
         fake.end_op()
         in_op = sum(script, F(0))
@@ -215,10 +229,18 @@ def run_case(case: dict, driver, variant: str = "1"):
                     violations.append(Violation("clock:sleep:sleeps-while-paused",
                                                 f"sleep({arg}) slept {fake.sleeps} while paused", case))
             else:
-                if len(fake.sleeps) != 1 or F(fake.sleeps[0]) * scale != F(arg):
+                # the real sleeps of one call (an implementation may sleep in slices) add up to d/scale
+                if not fake.sleeps or any(x < 0 for x in fake.sleeps) or \
+                        sum((F(x) for x in fake.sleeps), F(0)) * scale != F(arg):
                     violations.append(Violation(
                         "clock:sleep:length", f"sleep({arg}) at scale {scale} slept "
                         f"{fake.sleeps} real seconds, expected {F(arg)/scale}", case))
+            # real time passed while sleeping: the clock ran at the current rate all along
+            slept = sum((F(x) for x in fake.sleeps if x > 0), F(0))
+            for s in SRCS:
+                if lo[s] is not None:
+                    lo[s] += rate_before * slept
+                    hi[s] += rate_before * slept
         rate_after = F(0) if paused else scale
         for s in SRCS:
             if hi[s] is not None:
